@@ -36,6 +36,19 @@ SUITES = {
                    "BoxedLocalRef/PtrLocalRef/PooledLocalRef::release_event", "LocalEventPool::rent"],
         stubs=[], replay_bin="kani/events_once_local",
     ),
+    "infinity_pool": dict(
+        kind="incrate", package="infinity_pool", prefix="folo_verif::",
+        sources=["kani/infinity_pool/harness.rs"],
+        env={"CARGO_PROFILE_DEV_DEBUG_ASSERTIONS": "false"},
+        functions=["SlabLayout::new", "determine_capacity", "VacancyMap::{resize,replace_unchecked,get}",
+                   "VacancyMapSlice::first_one", "mask_bits", "VacancyTracker::{update_slab_count,update_slab_status,next_vacancy}",
+                   "Slab::{new,insert_with_unchecked,remove,remove_unpin,iter,len,is_empty,is_full,drop}", "SlabIterator::{next,next_back,len}",
+                   "RawOpaquePool::{insert,insert_with_unchecked,remove,remove_unpin,reserve,shrink_to_fit,len,capacity,is_empty,iter,drop}",
+                   "RawPooledMut::into_shared", "RawPooled::{ptr,as_ref}", "Dropper::{new,drop}", "LayoutKey::new"],
+        stubs=["std::panic::catch_unwind -> call the closure (Kani has no unwinding)",
+               "std::panic::resume_unwind -> panic!() (reaching it is reported)"],
+        replay_bin="kani/infinity_pool/replay",
+    ),
 }
 
 
@@ -67,7 +80,8 @@ def discover(suite):
                     pending = dict(suite=suite, ids=kv.get("id", "").split(","), tier=kv.get("tier", "quick"),
                                    timeout=int(kv.get("timeout", "600")), mem=int(kv.get("mem", "8")),
                                    expect=kv.get("expect", "pass"), bounds="", source=src,
-                                   min_covers=int(kv.get("covers", "0")), family=kv.get("family", ""))
+                                   min_covers=int(kv.get("covers", "0")), family=kv.get("family", ""),
+                                   witness=kv.get("witness", "all"))
                     continue
                 m = BND.search(line)
                 if m and pending is not None:
@@ -105,7 +119,7 @@ def prepare_suite(suite):
 def kani_cmd(suite, harness, slot, extra=()):
     spec = SUITES[suite]
     tdir = os.path.join(CACHE, "kani", suite, "slot%d" % slot)
-    cmd = ["cargo", "kani", "--target-dir", tdir, "--harness", harness, "--exact"]
+    cmd = ["cargo", "kani", "--target-dir", tdir, "--harness", spec.get("prefix", "") + harness, "--exact"]
     if spec.get("stubbing", True):
         cmd += ["-Z", "stubbing"]
     cmd += list(spec.get("kani_args", []))
@@ -137,7 +151,7 @@ def run_proc(cmd, cwd, env, timeout, mem_gb, log_path):
     return rc, timed_out, time.time() - t0
 
 
-RE_CHECK = re.compile(r"^Check (\d+): (\S+)")
+RE_CHECK = re.compile(r"^Check (\d+): (.+)$")
 RE_VARS = re.compile(r"^(\d+) variables, (\d+) clauses")
 RE_VCC = re.compile(r"Generated (\d+) VCC\(s\), (\d+) remaining after simplification")
 RE_SOLVER = re.compile(r"^Runtime (Solver|decision procedure): ([0-9.e+-]+)s")
@@ -153,6 +167,7 @@ def parse_log(path):
              vccs=0, vccs_remaining=0, solver_calls=0, solver_s=0.0, symex_s=0.0, steps=0,
              checks_total=0, checks_failed=0, verification_s=None, errors=[], stubs=[])
     cur = None
+    covers = {}
     with open(path, errors="replace") as f:
         lines = f.read().splitlines()
     for i, line in enumerate(lines):
@@ -170,8 +185,9 @@ def parse_log(path):
                 cur["location"] = s.split(":", 1)[1].strip()
                 if cur["status"] in ("FAILURE", "UNDETERMINED") and cur["status"] == "FAILURE":
                     r["failed"].append(cur)
-                if cur["status"] in ("UNSATISFIABLE", "UNREACHABLE") and ".cover." in cur["name"]:
-                    r["unsat_covers"].append(cur)
+                if ".cover." in cur["name"]:
+                    # a witness (keyed by its message) holds if ANY of its instances is satisfiable
+                    covers[cur["description"]] = covers.get(cur["description"], False) or cur["status"] == "SATISFIED"
                 cur = None
             continue
         m = RE_VARS.match(line)
@@ -204,21 +220,23 @@ def parse_log(path):
             continue
         m = RE_COVER.search(line)
         if m:
-            r["covers_sat"] = int(m.group(1))
-            r["covers_total"] = int(m.group(2))
             continue
         m = RE_VTIME.match(line)
         if m:
             r["verification_s"] = float(m.group(1))
             continue
         if line.startswith("VERIFICATION:- "):
-            r["verdict"] = line.split("- ", 1)[1].strip()
+            r["verdict"] = line.split("- ", 1)[1].strip().split()[0]
+            r["verdict_note"] = " ".join(line.split("- ", 1)[1].strip().split()[1:])
             continue
         if "- Stub:" in line or line.strip().startswith("Stub:"):
             r["stubs"].append(line.strip())
         if line.startswith("error") or "internal compiler error" in line or "CBMC failed" in line \
-                or "std::bad_alloc" in line or "Out of memory" in line or "Killed" in line:
+                or "std::bad_alloc" in line or "Out of memory" in line or "ran out of memory" in line or "Killed" in line:
             r["errors"].append(line.strip()[:300])
+    r["covers_total"] = len(covers)
+    r["covers_sat"] = sum(1 for v in covers.values() if v)
+    r["unsat_covers"] = [dict(description=d) for d, v in covers.items() if not v]
     return r
 
 
@@ -240,8 +258,21 @@ def classify(h, rc, timed_out, parsed):
         if bad:
             return "violation_candidate", "twin failed through a real check: %s" % bad[0]["description"]
         return "ok", "twin failed as required"
+    if h["expect"] == "panic":
+        # #[kani::should_panic]: SUCCESSFUL = at least one panic and nothing but panics failed
+        if parsed["verdict"] == "SUCCESSFUL":
+            return "ok", "panics as required"
+        if parsed.get("verdict_note", "").startswith("(encountered no panics"):
+            return "violation_candidate", "expected panic did not occur"
+        real = [c for c in failed if not any(p in c["description"] for p in NOVERDICT_PAT)]
+        if real:
+            return "violation_candidate", "; ".join("%s @ %s" % (c["description"], c["location"].split(" in function")[0]) for c in real[:4])
+        return "noverdict", "should_panic harness: %s" % parsed.get("verdict_note", "")
     if parsed["verdict"] == "SUCCESSFUL":
-        if parsed["covers_total"] and parsed["covers_sat"] < parsed["covers_total"]:
+        if h.get("witness", "all") == "any":
+            if parsed["covers_sat"] < max(1, h["min_covers"]):
+                return "noverdict", "fewer than %d vacuity witnesses satisfiable (%d)" % (max(1, h["min_covers"]), parsed["covers_sat"])
+        elif parsed["covers_total"] and parsed["covers_sat"] < parsed["covers_total"]:
             return "noverdict", "vacuity witness not satisfiable: %s" % \
                 "; ".join(c["description"] for c in parsed["unsat_covers"][:3])
         if parsed["covers_total"] < h["min_covers"]:
@@ -399,7 +430,12 @@ def native_replay(h, vecs, replay_path, modes=("dev", "release", "miri")):
             tail = "".join("".join(ls[i:i + 3]) for i in keep[:4]) or "".join(ls[-8:])
         except OSError:
             pass
-        if to:
+        if h["expect"] == "panic" and not to and rc not in (3, 4):
+            if "could not compile" in tail:
+                out[mode] = (None, "replay build failed: " + tail[-300:])
+            else:
+                out[mode] = (rc == 0, "ran to completion without the required panic" if rc == 0 else "panicked as required")
+        elif to:
             out[mode] = (True, "hang (watchdog 900s)")
         elif rc == 0:
             out[mode] = (False, "ran to completion")
